@@ -195,6 +195,8 @@ def search(acc: Acc, tier, shard, nshards):
         quotes = ch.choice([['"'], ["'"], ['"', "'"]])
         prof = model.Profile(max_depth=4, max_items=6, forbid="".join(quotes), lookalike_multi=False)
         doc = model.any_document(model.Gen(ch, prof))
+        if '"' in quotes and ch.chance(1, 5):
+            return commented_case(ch, doc, acc)
         text = render.render(doc).text
         try:
             d = W.loads(text)
@@ -224,6 +226,68 @@ def search(acc: Acc, tier, shard, nshards):
     hyp_search(acc, ID, "documents", shard, n, body, tier)
 
 
+def stray_line_breaks(text, nlc):
+    """Offsets of line-break characters that are not part of a newlinechar, outside quoted strings and /* */ comments
+    (multi-line values and comments keep the line breaks of their source)."""
+    bad = []
+    i, n = 0, len(text)
+    while i < n:
+        c = text[i]
+        if c in "\"'":
+            j = i + 1
+            while j < n and text[j] != c:
+                j += 2 if (text[j] == "\\" and j + 1 < n and text[j + 1] == c) else 1
+            i = j + 1
+            continue
+        if c == "`":
+            j = text.find("`", i + 1)
+            i = n if j < 0 else j + 1
+            continue
+        if c == "/" and text.startswith("/*", i):
+            j = text.find("*/", i + 2)
+            i = n if j < 0 else j + 2
+            continue
+        if c == "#":
+            j = i
+            while j < n and text[j] not in "\r\n":
+                j += 1
+            i = j
+            continue
+        if c in "\r\n":
+            if text.startswith(nlc, i) and nlc in ("\n", "\r\n"):
+                i += len(nlc)
+                continue
+            bad.append(i)
+        i += 1
+    return bad
+
+
+def commented_case(ch, doc, acc):
+    """a document loaded with its comments: every line break dumps writes is newlinechar"""
+    from . import c14
+
+    W = env.Workers.get()
+    src, placed = c14.render_with_comments(doc, ch)
+    o = options.draw(ch, quotes=['"'], linebreak_only=True, has_comments=True)
+    case = {"commented_text": src, "options": o}
+    acc.case(["commented", src, optkey(o)], len(placed) >= 2 and o["newlinechar"] != "\n")
+    acc.cls("commented_documents")
+    return commented_check(src, o, case)
+
+
+def commented_check(src, o, case):
+    W = env.Workers.get()
+    try:
+        text = W.dumps(W.loads(src, comments=True), **o)
+    except Exception as e:
+        return [Discrepancy(f"dumps_comments:{type(e).__name__}", f"dumps of a dictionary with comments raised {type(e).__name__}: {e!s:.100}", case)]
+    bad = stray_line_breaks(text, o["newlinechar"])
+    if bad:
+        k = bad[0]
+        return [Discrepancy(f"linebreak_not_newlinechar:comments:{feat(o)}", f"a line break that is not newlinechar {o['newlinechar']!r} at offset {k}: {text[max(0, k - 40):k + 20]!r} with {o}", case)]
+    return []
+
+
 def public_sequence(d, seq, case):
     import mappyfile
 
@@ -243,6 +307,8 @@ def public_sequence(d, seq, case):
 
 def replay(case):
     W = env.Workers.get()
+    if "commented_text" in case:
+        return commented_check(case["commented_text"], case["options"], case)
     text = corpus.read(os.path.join(env.REPO, case["file"])) if "file" in case else case["text"]
     if "options_sequence" in case:
         return public_sequence(W.loads(text), case["options_sequence"], case)
